@@ -151,6 +151,8 @@ class IVFCLevel4Reader(RawIOBase):
 
     @_raise_if_level_closed
     def write(self, data: bytes) -> int:
+        # any buffer is written byte by byte, like an ordinary file does: a view of wider items is not measured in items
+        data = bytes(data)
         if self._seek + len(data) > self._lv4.size:
             data = data[:max(self._lv4.size - self._seek, 0)]
         if not data:
